@@ -462,7 +462,16 @@ class FalsyService(dict):
         return self.rec.endpoint(*a, details=details, **kw)
 
 
-class Listener:
+class ListenerBase:
+    """(a handler inherited from a base class is a handler of the object like any other)"""
+
+    @wamp.subscribe("com.myapp.topic2")
+    @wamp.subscribe("com.myapp.topic3")
+    def b_second(self, *a, **kw):
+        self.rec.on_handler(3, a, kw, None, False)
+
+
+class Listener(ListenerBase):
     """decorated object subscription: the first method has options, the second has none and is subscribed to two topics (stacked decorators)"""
 
     def __init__(self, rec):
@@ -471,11 +480,6 @@ class Listener:
     @wamp.subscribe("com.myapp.topic1", options=SubscribeOptions(details=True, match="prefix", get_retained=True))
     def a_first(self, *a, details=None, **kw):
         self.rec.on_handler(2, a, kw, details, True)
-
-    @wamp.subscribe("com.myapp.topic2")
-    @wamp.subscribe("com.myapp.topic3")
-    def b_second(self, *a, **kw):
-        self.rec.on_handler(3, a, kw, None, False)
 
     @wamp.register("com.myapp.proc_on_listener")
     def an_endpoint(self, *a, **kw):          # a procedure of the same object: subscribe(obj) has nothing to do with it
